@@ -362,6 +362,10 @@ Apply(W, op) ==
             ELSE DoAddNode(S, op.p, SrcOf(W, op), op.x, op.k, op.deep, op.pos, "add_node")
      [] op.name = "add_tree"        ->   \* p.add_child(tree S, before=, deep=) ; returns a node (unspecified which)
             DoAddList(S, op.p, W.s, 0, op.deep, op.pos, "add_tree", {})
+     [] op.name = "add_empty_tree"  ->   \* p.add_child(<a tree without nodes>): nothing to add
+            DoAddList(S, op.p, EmptyTree(S.typed), 0, op.deep, op.pos, "add_tree", {})
+     [] op.name = "empty_tree_copy_to" ->   \* <a tree without nodes>.copy_to(p): refused (or nothing happens)
+            Result(TRUE, AnyErr, "tree_copy_to:empty", 0, S)
      [] op.name = "tree_copy_to"    ->   \* S.copy_to(p, deep=)
             DoAddList(S, op.p, W.s, 0, op.deep, PosNone, "tree_copy_to", AnyErr)
      [] op.name = "copy_children_to" ->  \* x.copy_to(p, add_self=False, deep=)
